@@ -29,6 +29,8 @@ type Snap struct {
 	NbOrig      int
 	CP          bool
 	Restarts    int
+	HeapContent []int
+	HeapIndices []int
 }
 
 func (sn Snap) Sx() Sx {
@@ -37,7 +39,7 @@ func (sn Snap) Sx() Sx {
 		rs[i] = Ints(r)
 	}
 	return L(I(sn.Kind), I(sn.Lvl), Ints(sn.Trail), Ints(sn.Model), L(rs...), Ints(sn.Assumptions), Ints(sn.Conflict),
-		IntLists(sn.Constrs), B(sn.Done), I(sn.ResKind), Ints(sn.Learnt), I(sn.Unit), Ints(sn.Props), I(sn.NewLvl), I(sn.NbOrig), B(sn.CP), I(sn.Restarts))
+		IntLists(sn.Constrs), B(sn.Done), I(sn.ResKind), Ints(sn.Learnt), I(sn.Unit), Ints(sn.Props), I(sn.NewLvl), I(sn.NbOrig), B(sn.CP), I(sn.Restarts), Ints(sn.HeapContent), Ints(sn.HeapIndices))
 }
 
 // SnapCase: a solve with tracing on.
